@@ -1,6 +1,6 @@
 (* C15: the parameter-list and header-list comparisons against what they mean.
    Headers: two lists without duplicate names are equal iff they hold the same (name, value) pairs
-   up to letter case, in any order.  Parameters: equal iff the user / ttl / method / maddr presence
+   up to letter case, in any order.  For parameters: equal iff the user / ttl / method / maddr presence
    masks agree and every pair of parameters with the same key (known parameter: its kind; other
    parameter: its name up to letter case) has the same value up to letter case.  Symmetry,
    reflexivity, order and case independence are corollaries. *)
